@@ -56,6 +56,8 @@ const (
 	kUnit     ccKind = "unit"
 	kVars     ccKind = "vars"    // map[string]slip.Object of an instance (Unbound = none) → AList (Option Val)
 	kTypeObj  ccKind = "typeobj" // obj.Type: the class object of an instance (context parameter T)
+	kInst     ccKind = "instance" // *StandardObject held in the state (GObj)
+	kStatus   ccKind = "status"   // how a function ended: 0 returned its object, 1 returned nil, 2 signalled an error
 )
 
 func (k ccKind) lean() string {
@@ -98,6 +100,10 @@ func (k ccKind) lean() string {
 		return "Unit"
 	case kVars:
 		return "AList (Option Val)"
+	case kInst:
+		return "GObj"
+	case kStatus:
+		return "Nat"
 	}
 	return "?"
 }
@@ -112,6 +118,12 @@ func (k ccKind) zero() string {
 		return "none"
 	case kUnit:
 		return "()"
+	case kVal:
+		return "nilVal"
+	case kStatus:
+		return "1"
+	case kInst:
+		return "{}"
 	}
 	return "[]"
 }
@@ -119,7 +131,7 @@ func (k ccKind) zero() string {
 // fields of *StandardClass the translation knows (Lean: GClass)
 var ccClassFields = map[string]ccKind{
 	"name": kStr, "supers": kNames, "inherit": kNames, "precedence": kSyms, "baseClass": kOptSym,
-	"slotDefs": kSlotMap, "initArgs": kSlotsMap, "initForms": kSlotMap, "defaultInitArgs": kValMap,
+	"slotDefs": kSlotMap, "initArgs": kSlotsMap, "initForms": kSlotMap, "defaultInitArgs": kArgMap,
 }
 
 // fields of *SlotDef (Lean: GSlot)
@@ -144,6 +156,10 @@ type ccFn struct {
 	ret     ccKind
 	fuel    bool   // contains `for { }` or calls a function that does
 	startAt string // translate only from the first top-level statement that calls this function
+	startAtRange string // … or from the first top-level `for … range <ident>`
+	panics  bool   // slip.ErrorPanic / TypePanic end the function with status 2 (otherwise such calls are not modelled)
+	ctxRecv string // the receiver is read-only context: its fields are read from this Lean parameter (a GClass)
+	typeCtx bool   // takes the class object of the instance(s) as context parameter `T`
 	doc     string
 }
 
@@ -359,8 +375,15 @@ func (c *ccCtx) binary(t *ast.BinaryExpr) (string, ccKind, error) {
 				r = "(!" + r + ")"
 			}
 			return r, kBool, nil
-		case kOptVal: // a nil slip.Object is the value nil, not the unbound marker: see shared-initialize
-			return "", "", c.errf(t, "nil test of an object")
+		case kOptVal, kVal: // a nil slip.Object is the Lisp value nil (not the unbound marker)
+			r := "(" + x + " == some nilVal)"
+			if k == kVal {
+				r = "(" + x + " == nilVal)"
+			}
+			if t.Op == token.NEQ {
+				r = "(!" + r + ")"
+			}
+			return r, kBool, nil
 		}
 		return "", "", c.errf(t, "nil test of a %s", k)
 	}
@@ -425,6 +448,12 @@ func (c *ccCtx) selector(t *ast.SelectorExpr) (string, ccKind, error) {
 			return c.heap(), kHeap, nil
 		}
 	}
+	if f, ok := c.isRecvField(t); ok && c.fn.ctxRecv != "" {
+		if k, ok := ccClassFields[f]; ok {
+			return c.fn.ctxRecv + "." + f, k, nil
+		}
+		return "", "", c.errf(t, "unknown receiver field")
+	}
 	if f, ok := c.isRecvField(t); ok && c.fn.recv == "object" {
 		switch f {
 		case "vars":
@@ -462,6 +491,13 @@ func (c *ccCtx) selector(t *ast.SelectorExpr) (string, ccKind, error) {
 	case kSlot:
 		if fk, ok := ccSlotFields[t.Sel.Name]; ok {
 			return x + "." + t.Sel.Name, fk, nil
+		}
+	case kInst:
+		switch t.Sel.Name {
+		case "Type":
+			return "T", kTypeObj, nil
+		case "vars":
+			return x + ".vars", kVars, nil
 		}
 	}
 	return "", "", c.errf(t, "unsupported selector on a %s", k)
@@ -635,6 +671,23 @@ func (c *ccCtx) call(t *ast.CallExpr) (string, ccKind, error) {
 				return x, kClass, nil
 			}
 		}
+		// x.Eval(s, depth): the forms the harness uses are written as the values they evaluate to
+		if name == "Eval" {
+			x, k, err := c.expr(f.X)
+			if err != nil {
+				return "", "", err
+			}
+			switch k {
+			case kVal:
+				return x, kVal, nil
+			case kOptVal:
+				return "(" + x + ".getD nilVal)", kVal, nil
+			}
+			return "", "", c.errf(t, "Eval of a %s", k)
+		}
+		if c.fn.ctxRecv != "" && c.recv != "" && isIdent(f.X, c.recv) {
+			return "", "", c.errf(t, "method call on the read-only receiver")
+		}
 		// methods
 		xs, _, err := args()
 		if err != nil {
@@ -747,6 +800,18 @@ func (c *ccCtx) assignsTarget(lhs ast.Expr) bool {
 	if f, ok := c.rootField(lhs); ok && c.isTracked(f) {
 		return true
 	}
+	// inst.vars[...] for an instance held in the state
+	e := lhs
+	if ix, ok := e.(*ast.IndexExpr); ok {
+		e = ix.X
+	}
+	if sel, ok := e.(*ast.SelectorExpr); ok && sel.Sel.Name == "vars" {
+		if id, ok := sel.X.(*ast.Ident); ok {
+			if v, ok := c.vars[id.Name]; ok && v.state && v.kind == kInst {
+				return true
+			}
+		}
+	}
 	if id, ok := c.rootIdent(lhs); ok {
 		if v, ok := c.vars[id]; ok && v.state {
 			return true
@@ -801,7 +866,7 @@ func (c *ccCtx) relevant(st ast.Stmt) bool {
 				}
 			}
 		case *ast.CallExpr:
-			if c.callWrites(t) {
+			if c.callWrites(t) || (c.fn.panics && ccIsPanic(t)) {
 				rel = true
 			}
 			for _, a := range t.Args {
@@ -836,6 +901,13 @@ func (c *ccCtx) relevant(st ast.Stmt) bool {
 	return rel
 }
 
+func ccIsPanic(t *ast.CallExpr) bool {
+	if sel, ok := t.Fun.(*ast.SelectorExpr); ok && isIdent(sel.X, "slip") && strings.HasSuffix(sel.Sel.Name, "Panic") {
+		return true
+	}
+	return isIdent(t.Fun, "panic")
+}
+
 // callWrites: does this call write tracked state? (a translated function with state, a method of
 // the receiver whose transitive write set meets the tracked fields, or any call that is handed the
 // receiver or a tracked field other than len/append/cap)
@@ -857,6 +929,9 @@ func (c *ccCtx) callWrites(t *ast.CallExpr) bool {
 		}
 		if callee, ok := c.fns["StandardClass."+name]; ok && !callee.pure() {
 			// a state changing method of a class: relevant when the class is the receiver or lives in the heap state
+			return true
+		}
+		if callee, ok := c.fns["StandardObject."+name]; ok && !callee.pure() {
 			return true
 		}
 		if c.recv != "" && isIdent(f.X, c.recv) {
@@ -914,6 +989,12 @@ func (c *ccCtx) block(stmts []ast.Stmt, ind int) error {
 			switch {
 			case c.fn.ret == kUnit: // (a result of a function translated for its effect is not modelled)
 				c.line(ind, "Ctl.ret s ()")
+			case c.fn.ret == kStatus && len(t.Results) == 1:
+				if isIdent(t.Results[0], "nil") {
+					c.line(ind, "Ctl.ret s 1")
+				} else {
+					c.line(ind, "Ctl.ret s 0")
+				}
 			case len(t.Results) == 1:
 				x, k, err := c.expr(t.Results[0])
 				if err != nil {
@@ -958,6 +1039,13 @@ func (c *ccCtx) block(stmts []ast.Stmt, ind int) error {
 			call, ok := t.X.(*ast.CallExpr)
 			if !ok {
 				return c.errf(st, "unsupported expression statement")
+			}
+			if c.fn.panics && ccIsPanic(call) {
+				if c.fn.ret != kStatus {
+					return c.errf(st, "panic in a function without status")
+				}
+				c.line(ind, "Ctl.ret s 2")
+				return nil
 			}
 			if err := c.effectCall(call, ind, ""); err != nil {
 				return err
@@ -1026,6 +1114,36 @@ func (c *ccCtx) define(t *ast.AssignStmt, ind int, soft bool) error {
 		}
 	}
 	if len(t.Lhs) == 2 && len(t.Rhs) == 1 {
+		if ix, ok := t.Rhs[0].(*ast.IndexExpr); ok {
+			// v, has := m[key]
+			m, mk, err := c.expr(ix.X)
+			if err != nil {
+				return fail(err)
+			}
+			key, kk, err := c.expr(ix.Index)
+			if err != nil {
+				return fail(err)
+			}
+			vk, zero := ccKind(""), ""
+			switch mk {
+			case kStrMap:
+				vk, zero = kStr, "0"
+			case kVars:
+				vk, zero = kOptVal, "none"
+			case kSlotMap:
+				vk, zero = kSlot, "default"
+			}
+			a, aok := t.Lhs[0].(*ast.Ident)
+			b, bok := t.Lhs[1].(*ast.Ident)
+			if vk == "" || kk != kStr || !aok || !bok {
+				return fail(c.errf(t, "unsupported map lookup"))
+			}
+			if a.Name != "_" && vk != kSlot {
+				c.bind(a.Name, vk, ind, "(("+m+".get? "+key+").getD "+zero+")")
+			}
+			c.bind(b.Name, kBool, ind, "("+m+".has "+key+")")
+			return nil
+		}
 		if ta, ok := t.Rhs[0].(*ast.TypeAssertExpr); ok {
 			x, k, err := c.expr(ta)
 			if err != nil {
@@ -1090,11 +1208,14 @@ func (c *ccCtx) decl(t *ast.DeclStmt, ind int) error {
 		for _, n := range vs.Names {
 			v, ok := c.vars[n.Name]
 			if !ok || !v.state {
-				return c.errf(t, "var %s is not a state variable", n.Name)
+				// an untracked local that is only declared (its uses were sliced away)
+				c.poison[n.Name] = "declared local that is not a state variable"
+				continue
 			}
-			if v.kind != k {
+			if v.kind != k && !(k == kOptVal && v.kind == kVal) {
 				return c.errf(t, "var %s declared as %s, expected %s", n.Name, k, v.kind)
 			}
+			k = v.kind
 			c.line(ind, "let s := %s", c.setState(v.lean, k.zero()))
 		}
 	}
@@ -1135,7 +1256,7 @@ func (c *ccCtx) assign(t *ast.AssignStmt, ind int) error {
 			continue
 		}
 		// receiver map field: c.initForms[k] = v
-		if ix, ok := l.(*ast.IndexExpr); ok {
+		if ix, ok := l.(*ast.IndexExpr); ok && c.fn.recv == "class" {
 			if f, ok := c.isRecvField(ix.X); ok {
 				if !c.isTracked(f) {
 					continue
@@ -1153,6 +1274,49 @@ func (c *ccCtx) assign(t *ast.AssignStmt, ind int) error {
 					return c.errf(t, "map assignment %s[%s] = %s", fk, kk, vk)
 				}
 				c.line(ind, "let s := %s", c.setState(f, "s."+f+".set "+key+" "+v))
+				continue
+			}
+		}
+		if ix, ok := l.(*ast.IndexExpr); ok {
+			// m[k] = v for a map held in the state, obj.vars[k] = v for the receiver / an instance of the state
+			var target, cur string
+			var mk ccKind
+			switch x := ix.X.(type) {
+			case *ast.Ident:
+				if v, ok := c.vars[x.Name]; ok && v.state {
+					target, cur, mk = v.lean, "s."+v.lean, v.kind
+				}
+			case *ast.SelectorExpr:
+				if f, ok := c.isRecvField(x); ok && c.fn.recv == "object" && f == "vars" {
+					target, cur, mk = "vars", "s.vars", kVars
+				} else if id, ok := x.X.(*ast.Ident); ok && x.Sel.Name == "vars" {
+					if v, ok := c.vars[id.Name]; ok && v.state && v.kind == kInst {
+						target, cur, mk = v.lean+".vars", "s."+v.lean+".vars", kVars
+					}
+				}
+			}
+			if target != "" {
+				key, kk, err := c.expr(ix.Index)
+				if err != nil {
+					return err
+				}
+				v, vk, err := c.expr(t.Rhs[i])
+				if err != nil {
+					return err
+				}
+				if mk == kVars && vk == kVal {
+					v, vk = "(some "+v+")", kOptVal
+				}
+				if kk != kStr || !(mk == kStrMap && vk == kStr || mk == kVars && vk == kOptVal) {
+					return c.errf(t, "map assignment %s[%s] = %s", mk, kk, vk)
+				}
+				upd := cur + ".set " + key + " " + v
+				if strings.HasSuffix(target, ".vars") {
+					inst := strings.TrimSuffix(target, ".vars")
+					c.line(ind, "let s := %s", c.setState(inst, "{ s."+inst+" with vars := "+upd+" }"))
+				} else {
+					c.line(ind, "let s := %s", c.setState(target, upd))
+				}
 				continue
 			}
 		}
@@ -1225,6 +1389,55 @@ func (c *ccCtx) effectCall(t *ast.CallExpr, ind int, res string) error {
 				return c.errf(t, "registers a %s", k)
 			}
 			c.line(ind, "let s := %s", c.setState("heap", "s.heap.register "+x))
+			return nil
+		}
+		if callee, ok := c.fns["StandardObject."+name]; ok && !callee.pure() {
+			// a method of an instance held in the state: arguments are matched to the declared parameters by name
+			id, ok := f.X.(*ast.Ident)
+			if !ok {
+				return c.errf(t, "method call on an instance that is not a variable")
+			}
+			v, ok := c.vars[id.Name]
+			if !ok || !v.state || v.kind != kInst {
+				return c.errf(t, "method call on %s which is not an instance of the state", id.Name)
+			}
+			fd := c.funcs["StandardObject."+name]
+			var names []string
+			for _, fl := range fd.Type.Params.List {
+				for _, n := range fl.Names {
+					names = append(names, n.Name)
+				}
+			}
+			if len(names) != len(t.Args) {
+				return c.errf(t, "argument count")
+			}
+			as := ""
+			for _, p := range callee.params {
+				found := false
+				for i, n := range names {
+					if n != p.goName {
+						continue
+					}
+					x, k, err := c.expr(t.Args[i])
+					if err != nil {
+						return err
+					}
+					if p.kind == kOptVal && k == kVal {
+						x, k = "(some "+x+")", kOptVal
+					}
+					if k != p.kind {
+						return c.errf(t, "argument %s is a %s, expected %s", n, k, p.kind)
+					}
+					as += " " + x
+					found = true
+				}
+				if !found {
+					return c.errf(t, "parameter %s of %s not found", p.goName, name)
+				}
+			}
+			c.line(ind, "let r_ := %s.body T%s s.%s", callee.lean, as, v.lean)
+			c.line(ind, "let s := %s", c.setState(v.lean, "r_.state"))
+			bindRes(callee, "r_.value "+callee.ret.zero())
 			return nil
 		}
 		callee, ok := c.fns["StandardClass."+name]
@@ -1659,6 +1872,18 @@ func ccSpecs() []ccSpec {
 			doc:    "(obj *StandardObject) IsA(class string) bool"}},
 		{fn: ccFn{goName: "StandardObject.Hierarchy", lean: "Hierarchy", recv: "object", ret: kSyms,
 			doc: "(obj *StandardObject) Hierarchy() []slip.Symbol"}},
+		{fn: ccFn{goName: "StandardObject.setSlot", lean: "setSlot", recv: "object", ret: kUnit, typeCtx: false,
+			tracked: []string{"vars"},
+			params:  []ccParam{{"sd", kSlot}, {"value", kOptVal}},
+			doc:     "(obj *StandardObject) setSlot(s, sd, value, depth) — the :type check (a panic) is not modelled, a :allocation :class slot is not an instance slot"}},
+		{fn: ccFn{goName: "StandardClass.initObjSlots", lean: "initObjSlots", ret: kUnit, heapCtx: true, ctxRecv: "C",
+			doc: "(c *StandardClass) initObjSlots(obj *StandardObject)"},
+			state: []ccStateVar{{"obj", kInst}}},
+		{fn: ccFn{goName: "defaultSharedInitializeCaller.Call", lean: "sharedInitialize", ret: kStatus, typeCtx: true, panics: true,
+			startAtRange: "argMap",
+			params:       []ccParam{{"argMap", kArgMap}},
+			doc:          "defaultSharedInitializeCaller.Call from `for k, v := range argMap` on (obj = args[0], argMap = the supplied initargs)"},
+			state: []ccStateVar{{"obj", kInst}, {"nameMap", kStrMap}, {"value", kVal}, {"evaluated", kBool}}},
 		{fn: ccFn{goName: "makeClassesReady", lean: "makeClassesReady", ret: kUnit, heapSt: true, fuel: true,
 			params: []ccParam{{"p", kHeap}},
 			doc:    "makeClassesReady(p *slip.Package)"},
@@ -1710,6 +1935,12 @@ func genClosCode(repo string) (string, error) {
 		if sp.fn.heapCtx {
 			sig += " (H : Heap)"
 		}
+		if sp.fn.typeCtx {
+			sig += " (T : GClass)"
+		}
+		if sp.fn.ctxRecv != "" {
+			sig += " (" + sp.fn.ctxRecv + " : GClass)"
+		}
 		call := ""
 		gi := 0
 		for _, fl := range fd.Type.Params.List {
@@ -1723,10 +1954,9 @@ func genClosCode(repo string) (string, error) {
 				}
 				gi++
 				if !found {
-					if sp.fn.startAt != "" {
-						continue
-					}
-					return "", fmt.Errorf("%s: parameter %s has no declared kind (signature changed)", sp.fn.goName, n.Name)
+					// a parameter the translation does not model (scope, depth …): any use is an error
+					c.poison[n.Name] = "parameter that is not modelled"
+					continue
 				}
 				if pk == kHeap {
 					c.vars[n.Name] = ccVar{lean: "s.heap", kind: kHeap}
@@ -1739,7 +1969,7 @@ func genClosCode(repo string) (string, error) {
 			}
 		}
 		for _, p := range sp.fn.params {
-			if _, ok := c.vars[p.goName]; !ok {
+			if _, ok := c.vars[p.goName]; !ok && sp.fn.startAtRange == "" && sp.fn.startAt == "" {
 				return "", fmt.Errorf("%s: parameter %s not found (signature changed)", sp.fn.goName, p.goName)
 			}
 		}
@@ -1758,10 +1988,13 @@ func genClosCode(repo string) (string, error) {
 				ln := ccIdent(sv.goName)
 				if sv.kind == "object" {
 					fmt.Fprintf(&out, "  %s : GClass\n", ln)
+				} else if sv.kind == kInst {
+					fmt.Fprintf(&out, "  %s : GObj\n", ln)
 				} else {
 					fmt.Fprintf(&out, "  %s : %s := %s\n", ln, sv.kind.lean(), sv.kind.zero())
 				}
 				c.vars[sv.goName] = ccVar{lean: ln, kind: sv.kind, state: true}
+				delete(c.poison, sv.goName)
 			}
 			out.WriteString("\n")
 		}
@@ -1787,6 +2020,27 @@ func genClosCode(repo string) (string, error) {
 				return "", fmt.Errorf("%s: no statement calls %s", sp.fn.goName, sp.fn.startAt)
 			}
 			stmts = stmts[k:]
+		}
+		if sp.fn.startAtRange != "" {
+			k := -1
+			for i, st := range stmts {
+				if rs, ok := st.(*ast.RangeStmt); ok && isIdent(rs.X, sp.fn.startAtRange) {
+					k = i
+					break
+				}
+			}
+			if k < 0 {
+				return "", fmt.Errorf("%s: no `for … range %s`", sp.fn.goName, sp.fn.startAtRange)
+			}
+			stmts = stmts[k:]
+		}
+		// parameters of a function translated from a later statement on are declared in the spec only
+		for _, p := range sp.fn.params {
+			if _, ok := c.vars[p.goName]; !ok && (sp.fn.startAtRange != "" || sp.fn.startAt != "") {
+				ln := ccIdent(p.goName)
+				c.vars[p.goName] = ccVar{lean: ln, kind: p.kind}
+				sig += fmt.Sprintf(" (%s : %s)", ln, p.kind.lean())
+			}
 		}
 		if err := c.block(stmts, 1); err != nil {
 			return "", err
